@@ -11,10 +11,22 @@ pub struct Gen<'a> {
     pub n: usize,
 }
 
-const STRS: [&str; 22] = [
+const STRS: [&str; 34] = [
     "", "a", "Scan 1", "<", "&", "<&>\"'", "]]>", "a]]>b", "]]", " ", "  \t ", "\n", "line1\nline2", "\u{e4}\u{f6}\u{fc}\u{df}\u{20ac}",
     "\u{1F600} astral", "<![CDATA[x]]>", "&amp;", "end>", "{guid-1234-5678}", "tab\there", "\u{FFFD}\u{D7FF}\u{E000}", "x y  z",
+    // carriage returns (XML parsers normalise literal line ends), legal control characters of the C1 block
+    "a\rb", "a\r\nb", "\r", "]]\r>", "\r]]>\r", "\u{7f}\u{85}\u{9f}",
+    // characters XML cannot carry: a string containing one cannot be stored
+    "\u{1}", "x\u{b}y", "\u{0}", "\u{fffe}", "end\u{ffff}", "\u{1b}[0m",
 ];
+
+/// XML 1.0 `Char`
+pub fn xml_char(c: char) -> bool {
+    matches!(c as u32, 0x9 | 0xA | 0xD | 0x20..=0xD7FF | 0xE000..=0xFFFD | 0x10000..=0x10FFFF)
+}
+pub fn storable(s: &str) -> bool {
+    s.chars().all(xml_char)
+}
 
 pub fn gen_string(rng: &mut Rng) -> String {
     match rng.below(4) {
@@ -32,7 +44,7 @@ pub fn gen_string(rng: &mut Rng) -> String {
                         1 => 0xA0 + rng.below(0x500) as u32,
                         2 => 0x4E00 + rng.below(0x1000) as u32,
                         3 => 0x1F300 + rng.below(0x300) as u32,
-                        4 => *rng.pick(&[0x9u32, 0xA, 0x20, 0x3C, 0x26, 0x5D, 0x3E]),
+                        4 => *rng.pick(&[0x9u32, 0xA, 0x20, 0x3C, 0x26, 0x5D, 0x3E, 0xD, 0x5D, 0x3E, 0x85, 0x1, 0xFFFE]),
                         _ => 0x61 + rng.below(26) as u32,
                     };
                     char::from_u32(c).unwrap_or('x')
@@ -270,7 +282,7 @@ impl<'a> Gen<'a> {
         }
         if !self.exts.is_empty() && rng.chance(1, 2) {
             let ns = rng.pick(&self.exts).0.clone();
-            let name = (*rng.pick(&["normalX", "temperature", "classification", "my_attr-1", "intensity", "cartesianX", "guid"])).to_string();
+            let name = (*rng.pick(&["normalX", "temperature", "classification", "my_attr-1", "intensity", "cartesianX", "guid", "1st", "-x", "_y", "z-9"])).to_string();
             p.push(Rec { name: RName::Ext(ns, name), dt: gen_real_dt(rng, true) });
         }
         if rng.chance(1, 4) {
@@ -532,8 +544,8 @@ impl<'a> Gen<'a> {
         let mut stmts: Vec<Stmt> = vec![];
         let guid = if self.rng.chance(1, 25) { String::new() } else { format!("file-{}", gen_string(self.rng)) };
         for _ in 0..self.rng.below(3) {
-            let ns = (*self.rng.pick(&["ext", "nor", "my-ext_2", "e57x", "xmlbad", "", "bad ns", "ext"])).to_string();
-            let url = (*self.rng.pick(&["http://example.com/ext", "http://www.libe57.org/E57_NOR_surface_normals.txt", "urn:x", "http://a/?b=1&c=2", "a\"b", "<u>", "", "http://www.astm.org/COMMIT/E57/2010-e57-v1.0", "http://www.w3.org/XML/1998/namespace", "http://www.w3.org/2000/xmlns/", "urn:tab\there", "urn:two\nlines", " lead and trail "])).to_string();
+            let ns = (*self.rng.pick(&["ext", "nor", "my-ext_2", "e57x", "xmlbad", "", "bad ns", "ext", "0129", "-a", "_u", "x9"])).to_string();
+            let url = (*self.rng.pick(&["http://example.com/ext", "http://www.libe57.org/E57_NOR_surface_normals.txt", "urn:x", "http://a/?b=1&c=2", "a\"b", "<u>", "", "http://www.astm.org/COMMIT/E57/2010-e57-v1.0", "http://www.w3.org/XML/1998/namespace", "http://www.w3.org/2000/xmlns/", "urn:tab\there", "urn:two\nlines", " lead and trail ", "urn:cr\rhere", "urn:\u{1}ctl", "urn:\u{85}c1"])).to_string();
             if ref_valid_name(&ns) && !self.exts.iter().any(|e| e.0 == ns) && !self.exts.iter().any(|e| e.1 == url) && !url.is_empty() && url != "http://www.astm.org/COMMIT/E57/2010-e57-v1.0" && !["http://www.w3.org/XML/1998/namespace", "http://www.w3.org/2000/xmlns/"].contains(&url.as_str()) {
                 self.exts.push((ns.clone(), url.clone()));
             }
@@ -754,13 +766,18 @@ pub fn oracle_program(sink: &mut Sink, line: &str, prog: &Program, run: &Run) {
     }
     // ---- round trip (C01/C04/C06/C14): only when the last statement is a successful finalize
     let last_fin_ok = matches!(prog.stmts.last(), Some(Stmt::Fin)) && run.results.last().map(|s| s == "ok").unwrap_or(false);
+    let exp = expected_scene(prog, &run.results);
+    let storable = scene_storable(&exp);
     if !last_fin_ok {
-        if matches!(prog.stmts.last(), Some(Stmt::Fin)) && !prog.guid.is_empty() && run.results.last().map(|s| s == "err").unwrap_or(false) {
+        if matches!(prog.stmts.last(), Some(Stmt::Fin)) && !prog.guid.is_empty() && storable && run.results.last().map(|s| s == "err").unwrap_or(false) {
             sink.fail("C10", "writer/finalize-failed", line, "finalize failed although all preconditions hold");
         }
         return;
     }
-    let exp = expected_scene(prog, &run.results);
+    if !storable {
+        // a string with a character XML cannot carry was accepted by every call including finalize
+        sink.fail("C10", "writer/unstorable-string-accepted", line, "a string containing a character that XML 1.0 cannot carry was accepted by every call including finalize; it cannot be stored faithfully");
+    }
     let maxp = exp.clouds.iter().map(|c| c.points.len()).max().unwrap_or(0) + 5;
     match guarded(|| read_scene(&run.file, maxp)) {
         Err(p) => {
